@@ -49,7 +49,12 @@ def pools(hs):
                dt(9999, 12, 31, 23, 59, 59, tzinfo=pytz.utc), dt(1, 1, 1, 0, 0, 0, tzinfo=pytz.utc)],
         'misc': [hs.MARKER, hs.NA, hs.REMOVE, hs.Coordinate(1.5, -2.25), hs.XStr('hex', 'deadbeef'),
                  hs.XStr('Foo', 'a b  c'), hs.XStr('Foo', 'a b c'), hs.Bin('text/plain'), [1.0, 2.0], [1.0, 'a  b'],
-                 [1.0, 'a b'], {'x': 1.0}, [5.0], [Q(5.0, 'kg')], []],
+                 [1.0, 'a b'], {'x': 1.0}, [5.0], [Q(5.0, 'kg')], [],
+                 # pairs that differ only by the Haystack kind (or the unit, or the decoration) of a nested element,
+                 # and extended strings that differ only by their type name
+                 [True], [1.0], {'x': True}, [hs.Ref('s')], [hs.Ref('s', 'Site')], [hs.Ref('t')], [Q(5.0, 'kW')],
+                 {'x': 1.0, 'y': 2.0}, [[1.0]], [[True]],
+                 hs.XStr('Bar', 'a b c'), hs.XStr('b64', '3q2+7w==')],
     }
 
 
@@ -188,7 +193,23 @@ def make_case(hs, pool, rng, simple=False):
 def execute(hs, text, rows):
     from pyparsing import ParseBaseException
     g = hs.Grid(version='3.0', columns=[(tg, []) for tg in ['id', 'ref'] + TAGS])
-    g.extend(rows)
+    # the grid reaches its rows through one of three histories (chosen by the text, so that a replay makes the same
+    # choice): all rows at once; or the same filter has already been evaluated on the grid when its last row is
+    # appended / its first row is inserted -- the result is a function of the rows the grid holds NOW
+    import zlib
+    how = zlib.crc32(text.encode('utf-8', 'surrogatepass')) % 3 if len(rows) >= 2 else 0
+    if how == 0:
+        g.extend(rows)
+    else:
+        g.extend(rows[:-1] if how == 1 else rows[1:])
+        try:
+            g.filter(text)
+        except Exception:
+            pass
+        if how == 1:
+            g.append(rows[-1])
+        else:
+            g.insert(0, rows[0])
     ident = {id(o): i + 1 for i, o in enumerate(rows)}
     try:
         res = g.filter(text)
